@@ -9,7 +9,10 @@ class VLoop(asyncio.BaseEventLoop):
         super().__init__()
         self._vtime = 0.0
         self.exc_log = []
-        self.set_exception_handler(lambda loop, ctx: self.exc_log.append(ctx))
+        # never keep the context's task / future / handle objects: the handler is also called from Task.__del__, and
+        # storing the dying task there would resurrect it (and keep it in any weak registry of the code under test)
+        self.set_exception_handler(lambda loop, ctx: self.exc_log.append(
+            {k: (v if isinstance(v, (str, int, float, type(None))) else repr(v)[:200]) for k, v in ctx.items()}))
 
     # --- BaseEventLoop seams
     def time(self) -> float:
@@ -25,11 +28,15 @@ class VLoop(asyncio.BaseEventLoop):
     def n_ready(self) -> int:
         return len(self._ready)
 
-    def step(self):
+    def step(self) -> None:
         h = self._ready.popleft()
         if not h._cancelled:
             h._run()
-        return h
+        # as in BaseEventLoop._run_once: "needed to break cycles when an exception occurs".  A finished coroutine frame kept
+        # by an exception's traceback keeps its whole f_back chain, i.e. this frame and its locals; with `h` still bound the
+        # handle, its task_wakeup and so the task itself would stay alive in a cycle task -> exception -> traceback -> frame
+        # -> handle -> task, which the stock loop does not have (it matters to code that tracks tasks weakly).
+        h = None
 
     def due_timers(self):
         return sorted((h for h in self._scheduled if not h._cancelled), key=lambda h: h._when)
